@@ -308,9 +308,9 @@ theorem C20_errors_missing (w : World) (s : State) (k : Kind) (hc : s.cache k = 
 
 /-- the exception classes wrapped by `_load_metadata`, as read from its `except` clause (since the F20 fix) -/
 theorem C20_wrapped_classes :
-    Gen.composeWrapped = ["ValueError", "KeyError", "TypeError", "AttributeError"]
+    Gen.composeWrapped = ["ValueError", "LookupError", "TypeError", "AttributeError"]
     ∧ wrapped .valueError = true ∧ wrapped .keyError = true ∧ wrapped .typeError = true ∧ wrapped .attributeError = true
-    ∧ wrapped .indexError = false ∧ wrapped .runtimeError = false ∧ wrapped .other = false := by decide
+    ∧ wrapped .indexError = true ∧ wrapped .runtimeError = false ∧ wrapped .other = false := by decide
 
 /-- the file is there but loading raises an exception of a wrapped class – ValueError (JSON syntax error, undecodable
 bytes, wrong metadata type, a failing validator) or KeyError / TypeError / AttributeError (well-formed JSON that is
@@ -318,11 +318,11 @@ not the expected metadata: `{}`, `[]`, a header without payload, a payload of th
 the FILE; nothing is cached, so a later access tries again -/
 theorem C20_errors_undecodable (w : World) (s : State) (k : Kind) (path : Str) (e : Err) (hc : s.cache k = none)
     (hf : find w s.composePath (candidates k) = .ok path) (hl : w.load k path = .error e)
-    (he : e = .valueError ∨ e = .keyError ∨ e = .typeError ∨ e = .attributeError) :
+    (he : e = .valueError ∨ e = .keyError ∨ e = .typeError ∨ e = .attributeError ∨ e = .indexError) :
     (access w s k).2 = .error (.runtime path) ∧ (access w s k).1.cache = s.cache := by
   have hw : wrapped e = true := by
-    obtain ⟨_, h1, h2, h3, h4, _⟩ := C20_wrapped_classes
-    rcases he with he | he | he | he <;> subst he <;> assumption
+    obtain ⟨_, h1, h2, h3, h4, h5, _⟩ := C20_wrapped_classes
+    rcases he with he | he | he | he | he <;> subst he <;> assumption
   simp [access, hc, hf, hl, hw]
 
 /-- any exception of a class outside the `except` clause (e.g. an OSError: the candidate is a directory) propagates
